@@ -359,11 +359,13 @@ fn run_conc(c: &ConcCase) -> Verdict {
                     if dh {
                         hash[0] = t as u8;
                     }
-                    let mut spins = 0u64;
+                    // spin (politely: the machine may be oversubscribed) until the driver opens the round; the driver
+                    // always ends by storing usize::MAX, so this cannot wait for ever
+                    let mut spins = 0u32;
                     while go.load(AO::Acquire) <= round {
-                        spins += 1;
-                        if spins > 200_000_000 {
-                            return; // the driver gave up (a failure was reported)
+                        spins = spins.wrapping_add(1);
+                        if spins % 4096 == 0 {
+                            std::thread::yield_now();
                         }
                         std::hint::spin_loop();
                     }
@@ -387,7 +389,12 @@ fn run_conc(c: &ConcCase) -> Verdict {
         for round in 0..rounds {
             let seq = round as u64 + 1;
             go.store(round + 1, AO::Release);
+            let mut spins = 0u32;
             while done.load(AO::Acquire) < threads * (round + 1) {
+                spins = spins.wrapping_add(1);
+                if spins % 4096 == 0 {
+                    std::thread::yield_now();
+                }
                 std::hint::spin_loop();
             }
             let results: Vec<R> = (0..threads).map(|t| slots[round * threads + t].lock().unwrap().clone().unwrap_or(R::Replay)).collect();
